@@ -622,6 +622,21 @@ fn main() {
         std::process::exit(cx.rep.finish());
     }
 
+    if let Some(i) = args.extra.iter().position(|a| a == "--forms") {
+        // targeted run: many pair histories for the given forms only
+        let tags: Vec<String> = args.extra.get(i + 1).cloned().unwrap_or_default().split(',').map(|x| x.to_string()).collect();
+        let (exact, _) = all_forms();
+        for tag in exact.iter().filter(|t| tags.iter().any(|x| x == *t)) {
+            for k in 0..40usize {
+                let mut r = cx.rng.fork();
+                let s = gen_pair(&mut r, tag, k % 2 == 0, [2usize, 3, 4, 8][k % 4], if k % 2 == 0 { 300 } else { 600 });
+                cx.rep.bump(&format!("pair_form={}", tag));
+                cx.stress_small(&s);
+            }
+        }
+        println!("forms {:?}: cases={} violations={} undecided={:?}", tags, cx.rep.evaluations, cx.rep.violations.len(), cx.rep.dist.get("small_linearization_search_budget_exhausted"));
+        std::process::exit(cx.rep.finish());
+    }
     if args.has_flag("--only-selftest") {
         for _ in 0..20 {
             let t = std::time::Instant::now();
